@@ -350,4 +350,18 @@ def r6(ctx):
 
 EXPLANATION = EXPLANATION + ' (R5) repository idioms; (R6) connection bookkeeping that the handler lifecycle depends on (liveness clock, statistics) is updated only after authentication and the duplicate test (shared C12.R4 + C04.R2).'
 
-RULES = [("C10.R1", r1), ("C10.R2", r2), ("C10.R3", r3), ("C10.R4", r4), ("C10.R5", r_enum), ("C10.R6", r6)]
+def r_shared_r7(ctx):
+    """handler events keep flowing, and the shutdown sweep that owes every connected client its disconnect is reached, only while
+    the server loop lives: its sweeps run over snapshots of the pools inside per-client containment, and no uncontained call of
+    the loop can raise (shared C11.R2, C11.R3)"""
+    from . import c11 as _m
+    from .c02 import _Sub
+    for _f in ['r2', 'r3']:
+        getattr(_m, _f)(_Sub(ctx, "C10.R7"))
+
+
+EXPLANATION = EXPLANATION + (" (R7) the loop that produces every handler event cannot be stopped by its own sweeps: both pools are swept over snapshots inside "
+                             "per-client try/except that only logs, uncontained calls of the loop are on the closed non-raising list (shared C11.R2, C11.R3) - a dead "
+                             "server thread delivers no further message and never runs the shutdown sweep that owes each client its disconnect.")
+
+RULES = [("C10.R1", r1), ("C10.R2", r2), ("C10.R3", r3), ("C10.R4", r4), ("C10.R5", r_enum), ("C10.R6", r6), ("C10.R7", r_shared_r7)]
